@@ -8,10 +8,8 @@ for p in $(python3 -c "import json;print(' '.join(json.loads(l)['id'] for l in o
 done
 mo=$(python3 engine/mutants.py --jobs ${JOBS:-12}); echo "$mo" | grep -v "^killed\|^silent" || true
 echo "$mo" | grep -q "^SURVIVED\|anchor-missing\|does-not-compile" && fail=1
-for d in seeded/*/; do
-  n=$(basename $d); p=$(python3 -c "import json;print(json.load(open('$d/meta.json'))['property'])")
-  r=$(python3 engine/seedeval.py $n $p $d 2>&1 | tail -1); echo "$n: $r"
-  echo "$r" | grep -q CAUGHT || fail=1
-done
+# every kept seeded change (confirmed once by engine/seedeval.py) must still be reported by the check of its own property
+so=$(python3 engine/mutants.py --seeds --jobs ${JOBS:-12}); echo "$so" | grep -v "^killed" || true
+echo "$so" | grep -q "^SURVIVED\|anchor-missing\|does-not-compile" && fail=1
 [ $fail = 0 ] && echo "SELFTEST OK" || echo "SELFTEST FAILED"
 exit $fail
